@@ -22,6 +22,7 @@
 package main
 
 import (
+	"encoding/json"
 	"fmt"
 	"io"
 	"log/slog"
@@ -220,6 +221,13 @@ func (c *checker) runHistory(i int) {
 	if i < 2 {
 		r.Sample(h)
 	}
+	c.runGiven(h)
+}
+
+// runGiven runs one history twice (reference / variant) and judges it.
+func (c *checker) runGiven(h wm.History) {
+	r := c.r
+	transport := h.Transport
 	run := func(name string, strip bool) (wm.Result, *wm.Env, bool) {
 		hh := h
 		if strip {
@@ -259,6 +267,28 @@ func main() {
 	r.SetRule("history i = 1..8 calls on one connection / one HTTP server, transport by i mod 8 (pipe x3, in-process HTTP x3, Unix socket, HTTP listener); first call's class = class list[(i/4) mod n] (quota by construction), the rest uniform over 27 (pipe) / 34 (HTTP) call classes: unary value/void/error/panic/parameter mismatch, stream complete/early EOS/cancel/not castable, init error/panic/nil/badstate, mid-stream error/panic/no-emit/double-emit/finish, header that does not serialise, state that cannot be sealed (at init, later), refused output batch, response cap, sticky-session error, plus the undispatched ones (unknown method, version-gate refusal, bad/missing token, describe); each history is run twice (hook well-behaved / hook panicking or returning nil context per request); distinct = transport x server config x (class, hook modes) sequence")
 	r.Assume("handlers never log at level EXCEPTION (on the wire such a log is an error report whatever the handler returns); generated scripts have them stripped")
 	r.Assume("a request refused while its input batch is cast (before the server looks at the tokens), with a bad/missing token, for an unknown method or by the version gate is not a dispatched call: hook invocations there are only counted")
+	slog.SetDefault(slog.New(slog.NewTextHandler(io.Discard, nil)))
+	svc.SetSink(nil)
+	c := &checker{r: r, debug: os.Getenv("C37_DEBUG") != ""}
+	if p := r.ReplayPath(); p != "" {
+		// ./check C37 quick --replay <file>: re-run the history of a replay file
+		var doc struct {
+			Witness struct {
+				History wm.History `json:"history"`
+			} `json:"witness"`
+		}
+		data, err := os.ReadFile(p)
+		if err == nil {
+			err = json.Unmarshal(data, &doc)
+		}
+		if err != nil || len(doc.Witness.History.Calls) == 0 {
+			r.Fatal("replay file %s: no history in it (%v)", p, err)
+		}
+		r.Require("replayed-history")
+		r.Class("replayed-history")
+		c.runGiven(doc.Witness.History)
+		return
+	}
 	req := []string{"transport.pipe", "transport.unix", "transport.http", "transport.http-net",
 		"hook.start-panicked", "hook.end-panicked", "hook.nil-context", "pairing.one-start-one-end-same-token",
 		"err.response-error+hook-err", "err.response-ok+hook-nil", "differential.later-call-equal"}
@@ -280,10 +310,7 @@ func main() {
 	}
 	r.Require(req...)
 
-	slog.SetDefault(slog.New(slog.NewTextHandler(io.Discard, nil)))
-	svc.SetSink(nil)
-	c := &checker{r: r, debug: os.Getenv("C37_DEBUG") != ""}
-	n := r.N(400, 15000)
+	n := r.N(300, 12000)
 	workers := 4
 	if r.Thorough() {
 		workers = min(16, runtime.NumCPU())
